@@ -1,5 +1,17 @@
 """C13 Consensus is independent of off-chain activity and node-local caches (DESIGN.md §5 C13)."""
 
+import importlib.util
+import os
+import sys
+
+sys.path.insert(0, os.path.join(os.path.dirname(os.path.abspath(__file__)), "..", "lib"))
+import verif  # noqa: E402
+
+_spec = importlib.util.spec_from_file_location("factslib", os.path.join(os.path.dirname(os.path.abspath(__file__)), "facts", "factslib.py"))
+factslib = importlib.util.module_from_spec(_spec)
+_spec.loader.exec_module(factslib)
+EXPECTED = os.path.join(os.path.dirname(os.path.abspath(__file__)), "facts", "C13.expected.json")
+
 META = dict(
     engine="E-CHAIN",
     technique="Lean 4 proof about the node-local caches as explicit state (LRU model, cache-coherence invariant lifted over arbitrary histories) + twin-node differential on the real PocketCoreApp (separate processes, RPC-like traffic, restarts, tiny LRU capacities) with a verified runtime monitor of the real ApplicationCache",
@@ -10,6 +22,8 @@ META = dict(
 
 def run(ctx):
     ctx.lean_proofs("Props.C13")
+    # E-FACTS F2: which context flavour each entry point builds (NewContext / SetPrevCtx call sites)
+    factslib.run_facts(ctx, verif, EXPECTED, {"new-context", "set-prev"}, "F2-context-flavours")
     ctx.rule("c13: per history a 3-validator/3-servicer/2-app chain (4-block sessions, 4 nodes per session, 2-minute unstaking) executes 10-22 generated blocks "
              "(chain.World.GenBlock plus application edit-stakes around the current stake, application/node unstakes, claims of nodes for the last finished sessions; "
              "chain data generated once per history and executed by both twins) on twin nodes in separate processes with the same LRU capacity (1, 1, 2 or 100) and restart "
